@@ -55,7 +55,7 @@ def strip_lifetimes(s):
 
 class Fn:
     __slots__ = ("d", "crate", "id", "name", "nname", "kind", "file", "lo", "hi", "blocks", "locals",
-                 "arg_count", "_succ", "_pred", "_usucc", "item", "prog", "_defs", "_closures", "_refs")
+                 "arg_count", "_succ", "_pred", "_usucc", "item", "prog", "_defs", "_closures", "_refs", "inlined", "origin")
 
     def __init__(self, d, crate, prog):
         self.d = d
@@ -78,6 +78,8 @@ class Fn:
         self._defs = None
         self._closures = None
         self._refs = None
+        self.inlined = ()     # names of the private helpers whose bodies were spliced in (wfa.inline)
+        self.origin = None    # the function as compiled, when this is an inlined view of it
 
     def __repr__(self):
         return f"Fn({self.nname})"
@@ -368,6 +370,20 @@ class Program:
 
     def adt_fields(self, adt_id, variant=0):
         return [f["name"] for f in self.adt(adt_id)["variants"][variant]["fields"]]
+
+    def inl(self, fn, depth=3, keep=()):
+        """view of fn with the private helpers it calls spliced in (memoised); see wfa.inline. `keep`: ids of helpers that stay calls
+        (the anchors a rule looks for, e.g. the coin's `next`)"""
+        if not hasattr(self, "_inl"):
+            self._inl = {}
+        if fn.origin is not None:
+            return fn
+        key = (fn.id, depth, tuple(sorted(keep)))
+        if key not in self._inl:
+            from .inline import inline, is_private_helper
+            kp = set(keep)
+            self._inl[key] = inline(self, fn, depth, eligible=lambda p, c, h: h.id not in kp and is_private_helper(p, c, h))
+        return self._inl[key]
 
     def const(self, nname):
         c = self.consts_by_name.get(nname, [])
